@@ -272,6 +272,13 @@ func (d *Disk) Lock(exclusive, blocking bool) error {
 	return nil
 }
 
+// Locked reports whether the path lock is held.
+func (d *Disk) Locked() bool {
+	d.mu.Lock()
+	defer d.mu.Unlock()
+	return d.locked
+}
+
 func (d *Disk) Unlock() error {
 	d.mu.Lock()
 	defer d.mu.Unlock()
@@ -305,6 +312,11 @@ func (d *Disk) MUnmap(b []byte) error {
 	if act != FaultNone {
 		d.Log = append(d.Log, Op{Kind: OpMUnmap, Failed: true})
 		return ErrInjected
+	}
+	if len(b) == 0 {
+		// like munmap(2) through golang.org/x/sys: EINVAL for an empty / nil mapping
+		d.Log = append(d.Log, Op{Kind: OpMUnmap, Failed: true})
+		return errors.New("simdisk: munmap: invalid argument")
 	}
 	if b != nil && d.mapped > 0 {
 		d.mapped--
